@@ -613,8 +613,28 @@ func (w *world) finishCached(c *call) {
 		if atWrap {
 			w.label("false_retry_at_wrap_around")
 		}
+		// The classes around operations NFSv4.1 does not have: the cached
+		// reply contains an OP_ILLEGAL result (which matches any requested
+		// operation at its position), or the retry contains such an
+		// operation (which matches no cached result of another type).
+		againstIllegal, withIllegal := cachedIllegalResult(orig), hasIllegalArgop(c.t.ops)
+		illegalClass := func(outcome string) {
+			if againstIllegal {
+				w.label("false_retry_against_cached_illegal_op")
+				w.label("false_retry_against_cached_illegal_op:" + outcome)
+			}
+			if withIllegal && !againstIllegal {
+				w.label("false_retry_with_illegal_op_against_cached_reply")
+				w.label("false_retry_with_illegal_op_against_cached_reply:" + outcome)
+			}
+		}
 		if isSeqError(res, nfsv4.NFS4ERR_SEQ_FALSE_RETRY) {
 			w.label("false_retry_rejected")
+			if c.mustFalse {
+				illegalClass("detectable_rejected")
+			} else {
+				illegalClass("undetectable_rejected")
+			}
 			return
 		}
 		if c.mustFalse {
@@ -624,6 +644,7 @@ func (w *world) finishCached(c *call) {
 			w.failf("C19: request %q reused slot %d sequence %d of %q with different arguments and was answered %s, which is neither NFS4ERR_SEQ_FALSE_RETRY nor the original's cached reply", c.desc, c.slot, c.seq, orig.desc, statusOf(res))
 		}
 		w.label("false_retry_undetectable_answered_from_cache")
+		illegalClass("undetectable_answered_from_cache")
 		return
 	}
 	ok, how := replayAcceptable(orig, c.raw, res)
@@ -640,6 +661,14 @@ func (w *world) finishCached(c *call) {
 	if orig.res.Status == nfsv4.NFS4_OK && orig.t != nil && orig.t.stateOp && how == "equal" {
 		w.label("replay_of_successful_state_op")
 		w.label("replay_of_successful:" + orig.t.kind)
+	}
+	if repliedIllegal(orig) {
+		w.label("replay_of_compound_with_illegal_op")
+		w.label("replay_of_compound_with_illegal_op:" + how)
+		w.label("replay_of_compound_with_illegal_op:" + orig.t.illegal.which)
+		if orig.t.illegal.at > 0 {
+			w.label("replay_of_compound_with_illegal_op_after_executed_operations")
+		}
 	}
 }
 
@@ -741,6 +770,9 @@ func (w *world) finishExec(c *call) {
 		if d.panicMsg != "" {
 			w.failf("panic in the code under test during a duplicate of %q: %s", c.desc, d.panicMsg)
 		}
+		if d.mayFalse && repliedIllegal(c) {
+			w.label("false_retry_against_inflight_compound_with_illegal_op")
+		}
 		if d.mayFalse && isSeqError(d.res, nfsv4.NFS4ERR_SEQ_FALSE_RETRY) {
 			w.label("false_retry_inflight_rejected")
 			continue
@@ -769,6 +801,10 @@ func (w *world) finishExec(c *call) {
 			w.label("false_retry_inflight_answered_with_original")
 		} else {
 			w.label("inflight_duplicate_completed_with_original")
+			if repliedIllegal(c) {
+				w.label("inflight_duplicate_of_compound_with_illegal_op")
+				w.label("inflight_duplicate_of_compound_with_illegal_op:" + c.t.illegal.which)
+			}
 			if sl.preset && (c.seq == maxU32 || c.seq == 0) {
 				w.label("inflight_duplicate_at_wrap_around")
 			}
@@ -799,6 +835,8 @@ var opNames = map[nfsv4.NfsOpnum4]string{
 	nfsv4.OP_READ: "READ", nfsv4.OP_REMOVE: "REMOVE", nfsv4.OP_RENAME: "RENAME", nfsv4.OP_RESTOREFH: "RESTOREFH",
 	nfsv4.OP_SAVEFH: "SAVEFH", nfsv4.OP_SETATTR: "SETATTR", nfsv4.OP_WRITE: "WRITE", nfsv4.OP_TEST_STATEID: "TEST_STATEID",
 	nfsv4.OP_DESTROY_SESSION: "DESTROY_SESSION", nfsv4.OP_DESTROY_CLIENTID: "DESTROY_CLIENTID", nfsv4.OP_RECLAIM_COMPLETE: "RECLAIM_COMPLETE",
+	nfsv4.OP_ILLEGAL: "ILLEGAL", nfsv4.OP_RENEW: "RENEW", nfsv4.OP_OPEN_CONFIRM: "OPEN_CONFIRM", nfsv4.OP_SETCLIENTID: "SETCLIENTID",
+	nfsv4.OP_SETCLIENTID_CONFIRM: "SETCLIENTID_CONFIRM", nfsv4.OP_RELEASE_LOCKOWNER: "RELEASE_LOCKOWNER",
 }
 
 func opName(op nfsv4.NfsOpnum4) string {
